@@ -247,6 +247,10 @@ pub assume_specification[usize::abs_diff](a: usize, b: usize) -> (r: usize)
 pub assume_specification[isize::unsigned_abs](a: isize) -> (r: usize)
     ensures r as int == (if a >= 0 { a as int } else { -(a as int) });
 
+// Option<Result<T, E>>::transpose (no vstd specification; A5)
+pub assume_specification<T, E>[Option::<Result<T, E>>::transpose](o: Option<Result<T, E>>) -> (r: Result<Option<T>, E>)
+    ensures r == (match o { Some(Ok(v)) => Ok::<Option<T>, E>(Some(v)), Some(Err(e)) => Err::<Option<T>, E>(e), None => Ok::<Option<T>, E>(None) });
+
 // std::thread::panicking(): whether the current thread is unwinding; arbitrary here (both answers are explored)
 #[verifier::external_body]
 pub fn vx_thread_panicking() -> (r: bool) { unimplemented!() }
